@@ -201,6 +201,8 @@ func (r *Registry) checkManifest(repoName string, mediaType string, data []byte)
 
 // refersTo reports whether the given digest is referred to, directly or indirectly, by any item
 // returned by the given iterator, within the given repository.
+// A stored manifest is looked into as the media type it is stored with and,
+// when the descriptor that refers to it declares another one, as that one too.
 // TODO currently this iterates through all tagged manifests. A better
 // algorithm could amortise that work and be considerably more efficient.
 func refersTo(repo *repository, iter descIter, digest ociregistry.Digest) (found bool, retErr error) {
@@ -221,6 +223,25 @@ func refersTo(repo *repository, iter descIter, digest ociregistry.Digest) (found
 			if err != nil {
 				retErr = err
 				return false
+			}
+			found, retErr = refersTo(repo, miter, digest)
+			if found || retErr != nil {
+				return false
+			}
+			if info.desc.MediaType == b.mediaType {
+				break
+			}
+			// The referring descriptor declares the content to be of another
+			// type than the one it is stored with (the same bytes can be stored
+			// under another media type as long as no tag leads to them, before
+			// a tagged manifest refers to them under the first one). Whoever
+			// follows the reference reads the content as the declared type, so
+			// what it refers to as that type is referred to as well. The content
+			// was not checked as that type when it was pushed: when it does
+			// not decode as that type, it refers to nothing more.
+			miter, err = manifestReferences(info.desc.MediaType, b.data)
+			if err != nil {
+				break
 			}
 			found, retErr = refersTo(repo, miter, digest)
 			if found || retErr != nil {
